@@ -212,3 +212,92 @@ Definition StepSpec (s : state) (o : op) : Prop :=
   | Ok => pre s o
   | Err cs => cs ≠ [] ∧ ∀ cw, cw ∈ cs → doc_cause s o cw
   end.
+
+(* ---- coverage of the operation alphabet (DESIGN Appendix A, constructors and link / registry
+   mutators: the operations that can touch I1–I10) -------------------------------------------------
+   [inv_step] is proved for the operations the model has ([op], Step.v). The full statement is
+   "every operation of the alphabet is modelled and preserves the invariant"; the operations on
+   signals inside messages / multiplexers (layer 2: I1, I2) and on shared definitions (layer 3: I8)
+   are not modelled yet — they are covered by the Go-side predicates of the harness only. *)
+Inductive mutator :=
+  (* modelled (layer 1) *)
+  | M_NewNetwork | M_NewBus | M_NewNode | M_NewMessage | M_NewSignalEnum | M_NewSignalEnumValue
+  | M_Network_AddBus | M_Network_RemoveBus | M_Network_RemoveAllBuses
+  | M_Bus_UpdateName | M_Bus_AddNodeInterface | M_Bus_RemoveNodeInterface | M_Bus_RemoveAllNodeInterfaces
+  | M_Node_UpdateName | M_Node_UpdateID | M_Node_AddInterface | M_Node_RemoveInterface
+  | M_NodeInterface_AddSentMessage | M_NodeInterface_RemoveSentMessage | M_NodeInterface_RemoveAllSentMessages
+  | M_NodeInterface_AddReceivedMessage | M_NodeInterface_RemoveReceivedMessage
+  | M_NodeInterface_RemoveAllReceivedMessages
+  | M_Message_UpdateName | M_Message_UpdateID | M_Message_SetStaticCANID | M_Message_AddReceiver
+  | M_Message_RemoveReceiver
+  | M_SignalEnum_AddValue | M_SignalEnum_RemoveValue | M_SignalEnum_RemoveAllValues
+  | M_SignalEnumValue_UpdateName | M_SignalEnumValue_UpdateIndex
+  (* layer 2: signals by name inside messages and multiplexers *)
+  | M_NewStandardSignal | M_NewEnumSignal | M_NewMultiplexerSignal
+  | M_Message_AppendSignal | M_Message_InsertSignal | M_Message_RemoveSignal | M_Message_RemoveAllSignals
+  | M_Signal_UpdateName
+  | M_MultiplexerSignal_InsertSignal | M_MultiplexerSignal_RemoveSignal | M_MultiplexerSignal_ClearSignalGroup
+  | M_MultiplexerSignal_ClearAllSignalGroups
+  (* layer 3: references *)
+  | M_NewSignalType | M_NewSignalUnit | M_NewAttribute | M_NewCANIDBuilder | M_Clone
+  | M_StandardSignal_SetType | M_StandardSignal_SetUnit | M_EnumSignal_SetEnum
+  | M_AssignAttribute | M_RemoveAttributeAssignment | M_RemoveAllAttributeAssignments
+  | M_Bus_SetCANIDBuilder.
+
+Definition all_mutators : list mutator :=
+  [ M_NewNetwork; M_NewBus; M_NewNode; M_NewMessage; M_NewSignalEnum; M_NewSignalEnumValue;
+    M_Network_AddBus; M_Network_RemoveBus; M_Network_RemoveAllBuses;
+    M_Bus_UpdateName; M_Bus_AddNodeInterface; M_Bus_RemoveNodeInterface; M_Bus_RemoveAllNodeInterfaces;
+    M_Node_UpdateName; M_Node_UpdateID; M_Node_AddInterface; M_Node_RemoveInterface;
+    M_NodeInterface_AddSentMessage; M_NodeInterface_RemoveSentMessage; M_NodeInterface_RemoveAllSentMessages;
+    M_NodeInterface_AddReceivedMessage; M_NodeInterface_RemoveReceivedMessage;
+    M_NodeInterface_RemoveAllReceivedMessages;
+    M_Message_UpdateName; M_Message_UpdateID; M_Message_SetStaticCANID; M_Message_AddReceiver;
+    M_Message_RemoveReceiver;
+    M_SignalEnum_AddValue; M_SignalEnum_RemoveValue; M_SignalEnum_RemoveAllValues;
+    M_SignalEnumValue_UpdateName; M_SignalEnumValue_UpdateIndex;
+    M_NewStandardSignal; M_NewEnumSignal; M_NewMultiplexerSignal;
+    M_Message_AppendSignal; M_Message_InsertSignal; M_Message_RemoveSignal; M_Message_RemoveAllSignals;
+    M_Signal_UpdateName;
+    M_MultiplexerSignal_InsertSignal; M_MultiplexerSignal_RemoveSignal; M_MultiplexerSignal_ClearSignalGroup;
+    M_MultiplexerSignal_ClearAllSignalGroups;
+    M_NewSignalType; M_NewSignalUnit; M_NewAttribute; M_NewCANIDBuilder; M_Clone;
+    M_StandardSignal_SetType; M_StandardSignal_SetUnit; M_EnumSignal_SetEnum;
+    M_AssignAttribute; M_RemoveAttributeAssignment; M_RemoveAllAttributeAssignments;
+    M_Bus_SetCANIDBuilder ].
+
+(* the model operation(s) of a mutator, given sample arguments; [None]: not modelled *)
+Definition model_op (m : mutator) : option op :=
+  let h := 1%positive in
+  match m with
+  | M_NewNetwork => Some NewNetwork | M_NewBus => Some (NewBus 0%N) | M_NewNode => Some (NewNode 0%N 0%Z 0)
+  | M_NewMessage => Some (NewMessage 0%N 0%Z 0%Z) | M_NewSignalEnum => Some NewEnum
+  | M_NewSignalEnumValue => Some (NewEnumValue 0%N 0%Z)
+  | M_Network_AddBus => Some (NetAddBus h None) | M_Network_RemoveBus => Some (NetRemoveBus h h)
+  | M_Network_RemoveAllBuses => Some (NetRemoveAllBuses h)
+  | M_Bus_UpdateName => Some (BusUpdateName h 0%N) | M_Bus_AddNodeInterface => Some (BusAddNodeInterface h None)
+  | M_Bus_RemoveNodeInterface => Some (BusRemoveNodeInterface h h)
+  | M_Bus_RemoveAllNodeInterfaces => Some (BusRemoveAllNodeInterfaces h)
+  | M_Node_UpdateName => Some (NodeUpdateName h 0%N) | M_Node_UpdateID => Some (NodeUpdateID h 0%Z)
+  | M_Node_AddInterface => Some (NodeAddInterface h) | M_Node_RemoveInterface => Some (NodeRemoveInterface h 0%Z)
+  | M_NodeInterface_AddSentMessage => Some (IfAddSent h None)
+  | M_NodeInterface_RemoveSentMessage => Some (IfRemoveSent h h)
+  | M_NodeInterface_RemoveAllSentMessages => Some (IfRemoveAllSent h)
+  | M_NodeInterface_AddReceivedMessage => Some (IfAddReceived h None)
+  | M_NodeInterface_RemoveReceivedMessage => Some (IfRemoveReceived h h)
+  | M_NodeInterface_RemoveAllReceivedMessages => Some (IfRemoveAllReceived h)
+  | M_Message_UpdateName => Some (MsgUpdateName h 0%N) | M_Message_UpdateID => Some (MsgUpdateID h 0%Z)
+  | M_Message_SetStaticCANID => Some (MsgSetStatic h 0%Z) | M_Message_AddReceiver => Some (MsgAddReceiver h None)
+  | M_Message_RemoveReceiver => Some (MsgRemoveReceiver h h)
+  | M_SignalEnum_AddValue => Some (EnumAddValue h None true) | M_SignalEnum_RemoveValue => Some (EnumRemoveValue h h)
+  | M_SignalEnum_RemoveAllValues => Some (EnumRemoveAllValues h)
+  | M_SignalEnumValue_UpdateName => Some (EvalUpdateName h 0%N)
+  | M_SignalEnumValue_UpdateIndex => Some (EvalUpdateIndex h 0%Z true)
+  | _ => None
+  end.
+
+Definition covered_mutators : list mutator := filter (λ m, bool_decide (is_Some (model_op m))) all_mutators.
+
+(* FULL STATEMENT (not proved): every mutator of the alphabet is modelled, so that [inv_step]
+   speaks about all of them *)
+Definition inv_step_full_statement : Prop := ∀ m, m ∈ all_mutators → is_Some (model_op m).
